@@ -8,7 +8,8 @@ patch = os.path.join(d, "patch.diff")
 subprocess.run(["git", "-C", "/repo", "checkout", "--", "."], check=True)
 subprocess.run(["git", "-C", "/repo", "apply", patch], check=True)
 try:
-    p = subprocess.run(["./check", prop, "--tier", "quick"], cwd="/verif", stdout=subprocess.PIPE, stderr=subprocess.STDOUT, text=True)
+    env = dict(os.environ, VERIF_EVIDENCE_DIR="/verif/.work/seed_evidence")
+    p = subprocess.run(["./check", prop, "--tier", "quick"], cwd="/verif", stdout=subprocess.PIPE, stderr=subprocess.STDOUT, text=True, env=env)
 finally:
     subprocess.run(["git", "-C", "/repo", "checkout", "--", "."], check=True)
 lines = [l for l in p.stdout.split("\n") if l.startswith("VIOLATION") or l.startswith("[" + prop)]
